@@ -138,6 +138,9 @@ UClasses ==
    RQA  |-> Cls("dataclass", << [FD("a", TInt, DInt(0)) EXCEPT !.reqmd = TRUE] @@ [mdann |-> TRUE], FD("b", TStr, DStr("")) >>),
    \* a TypedDict whose REQUIRED key is Optional (None is a value, never a default)
    TDR  |-> Cls("typeddict", << F("s", TStr), F("v", TOpt(TFloat)) >>),
+   \* a NAMED type used twice (hence a $ref), once with a constraint added at the use site AND an annotation (default)
+   \* beside it: dialects that ignore the siblings of $ref need the reference isolated
+   NR   |-> Cls("dataclass", << F("m", TNew("NI", TInt)), [FD("n", TNew("NI", TInt), DInt(3)) EXCEPT !.cons = << <<"min", 2>> >>] >>),
    UF   |-> Cls("dataclass", << F("u", TUnion(<<TInt, TEnum("ES")>>)), FD("l", TUnion(<<TEnum("EI"), TStr>>), DStr("s")) >>),
    EF   |-> Cls("dataclass", << F("e", TEnum("EI")), FD("l", TLit(<<DStr("a"), DInt(2)>>), DStr("a")) >>)]
 
